@@ -989,7 +989,7 @@ class Evaluator(object):
             # statement-level effects on local names
             if isinstance(v.func, ast.Attribute) and v.func.attr in MUTATOR_METHODS:
                 root = _root_name(v.func.value)
-                already = any(x.kind == "mutate" and x.node is v and x.d.get("applied") for x in self.summary.sites[-6:])
+                already = any(x.kind == "mutate" and x.node is v and x.d.get("applied") for x in self.summary.sites[-6:]) or id(v) in getattr(self, "_noop_calls", ())
                 if root is not None and root in env and not _is_module_term(env[root]) and not already:
                     # reuse the terms computed when the call expression was evaluated (no second evaluation, no duplicate sites)
                     cs = None
@@ -1419,6 +1419,12 @@ class Evaluator(object):
             kw.append((k.arg if k.arg is not None else "**", v))
         args = tuple(args)
         kw = tuple(kw)
+        while fn is not None and fn.op == "call" and tm.callee_name(fn.a[0]) == "functools.partial" and fn.a[1] and not any(z.op == "star" for z in fn.a[1]):
+            # functools.partial(f, a, k=v)(b) is f(a, b, k=v)
+            later = {k_ for k_, _ in kw}
+            args = tuple(fn.a[1][1:]) + args
+            kw = tuple((k_, v_) for k_, v_ in fn.a[2] if k_ not in later) + kw
+            fn = fn.a[1][0]
         via_filter = False
         if fn is not None and fn.op == "func" and fn.a[0] == "util.filter_kwargs" and args and args[0].op in ("func", "localfunc", "ext", "param", "ite"):
             via_filter = True
@@ -1460,6 +1466,25 @@ class Evaluator(object):
                         ms.d["new"] = env[root]
                         ms.d["applied"] = True
                     return tm.none()
+        if base is not None and node.func.attr == "update" and isinstance(node.func.value, ast.Name) and node.func.value.id in env and not any(k_ == "**" for k_, _ in kw):
+            # d.update({k1: v1, ...}) / d.update(k1=v1, ...) is d[k1] = v1; ...   (an empty display changes nothing)
+            pairs = None
+            if len(args) == 1 and args[0].op == "dict" and all(kv.op == "tuple" and len(kv.a) == 2 and kv.a[0].op == "const" for kv in args[0].a):
+                pairs = [(kv.a[0], kv.a[1]) for kv in args[0].a]
+            elif not args:
+                pairs = []
+            if pairs is not None:
+                pairs = pairs + [(tm.const(k_), v_) for k_, v_ in kw]
+                root = node.func.value.id
+                for k, v in pairs:
+                    cur = env[root]
+                    ms = self.site("mutate", node, how="setitem", old=cur, root=root, key=k, val=v, target=node.func.value)
+                    env[root] = tm.upd(cur, "setitem", k, v)
+                    ms.d["new"] = env[root]
+                    ms.d["applied"] = True
+                if not pairs:
+                    self.__dict__.setdefault("_noop_calls", set()).add(id(node))
+                return tm.none()
         if base is not None and node.func.attr == "count" and len(args) == 1 and not kw and tm.is_const(args[0], True) and base.op == "comp" and base.a[0] == "list" and _boolean_valued_term(base.a[1]):
             # [b(x) for x in it].count(True) with Boolean b is sum(b(x) for x in it)
             return tm.call(tm.mk("builtin", "sum"), (tm.mk("comp", "gen", base.a[1], base.a[2], base.a[3], base.a[4]),))
@@ -1796,13 +1821,7 @@ def _namedtuples(P):
 
 def _resigned(P, q):
     """a private helper of the inventory whose parameter list is no longer the recorded one"""
-    from .known import KNOWN_SIGNATURES
-
-    want = KNOWN_SIGNATURES.get(q)
-    if want is None or not P.has_func(q):
-        return False
-    g = P.func(q)
-    return list(g.params) + ["*" + k for k in getattr(g, "kwonly", [])] != want
+    return P.resigned(q)
 
 
 _NOLIT = object()
